@@ -127,7 +127,38 @@ def make_grid(name, seed):
     rg = OneDGrid(np.array([0.0, 0.4, 1.1]), np.array([0.2, 0.5, 0.7]), (0, np.inf))
     with warnings.catch_warnings():
         warnings.simplefilter("ignore")
-        return AtomGrid(rg, degrees=[3, 5, 3], center=np.array([0.2, -0.1, 0.3]))
+        if name == "atom":
+            return AtomGrid(rg, degrees=[3, 5, 3], center=np.array([0.2, -0.1, 0.3]))
+        # every other class inherits ``moments``: it must use that class's own points and weights
+        if name == "atom-rot":
+            return AtomGrid(rg, degrees=[5, 3, 7], center=np.array([-0.4, 0.3, 0.1]), rotate=5)
+        if name == "mol":
+            from grid.becke import BeckeWeights
+            from grid.molgrid import MolGrid
+
+            ats = [AtomGrid(rg, degrees=[3, 5, 3], center=np.array(c)) for c in ([0.0, 0.0, -0.7], [0.1, 0.0, 0.8])]
+            return MolGrid(np.array([8, 1]), ats, BeckeWeights(order=3), store=bool(seed % 2))
+        if name == "uniform":
+            from grid.cubic import UniformGrid
+
+            return UniformGrid(np.array([-0.6, -0.5, -0.4]), np.array([[0.5, 0.1, 0.0], [0.0, 0.4, 0.0], [0.1, 0.0, 0.45]]), np.array([3, 4, 3]))
+        if name == "tensor":
+            from grid.cubic import Tensor1DGrids
+            from grid.onedgrid import GaussLegendre, Trapezoidal
+
+            return Tensor1DGrids(GaussLegendre(3), Trapezoidal(4), GaussLegendre(2))
+        if name == "angular":
+            from grid.angular import AngularGrid
+
+            return AngularGrid(degree=5)
+        if name == "local":
+            return make_grid("3d", seed).get_localgrid(np.array([0.1, 0.4, -0.2]), 1.3)
+        if name == "periodic":
+            from grid.periodicgrid import PeriodicGrid
+
+            p = rng.uniform(0, 1, (12, 3))
+            return PeriodicGrid(p, rng.uniform(0.1, 0.5, 12), np.diag([1.0, 1.2, 0.9]))
+        raise KeyError(name)
 
 
 def _case(arg):
@@ -139,6 +170,9 @@ def _case(arg):
     dim = pts.shape[1]
     rng = np.random.default_rng([seed, 77])
     centres = np.vstack([pts[len(pts) // 3], rng.uniform(-0.5, 0.5, dim), np.full(dim, 1.9)])[:ncent]
+    if gname in ("atom", "atom-rot") and ncent == 3:
+        # the grid's own centre: the r = 0 shell coincides with it and the +-z nodes of every shell lie on its polar axis
+        centres[2] = np.asarray(g.center, dtype=float)
     n = len(pts)
     funcs = {f"e{i}": np.eye(n)[i] for i in (0, len(pts) // 3, n - 1)}
     funcs["smooth"] = np.exp(-0.4 * np.sum(pts**2, axis=1))
@@ -195,7 +229,12 @@ def _case(arg):
 def dipole(ctx):
     from grid.utils import dipole_moment_of_molecule, isotopic_masses
 
-    g = make_grid("atom", ctx.seed)
+    for gname in ("atom", "mol", "uniform"):
+        _dipole_on(ctx, gname, isotopic_masses, dipole_moment_of_molecule)
+
+
+def _dipole_on(ctx, gname, isotopic_masses, dipole_moment_of_molecule):
+    g = make_grid(gname, ctx.seed)
     pts, w = np.array(g.points), np.array(g.weights)
     for coords, charges in ((np.array([[0.0, 0.0, 0.0], [0.0, 0.3, 1.2]]), np.array([1, 8])),
                             (np.array([[0.2, -0.1, 0.3]]), np.array([6])),
@@ -206,10 +245,10 @@ def dipole(ctx):
         com = (coords * m[:, None]).sum(axis=0) / m.sum()
         ref = (charges[:, None] * (coords - com)).sum(axis=0) - np.array([np.sum(w * dens * (pts[:, k] - com[k])) for k in range(3)])
         got = np.asarray(dipole_moment_of_molecule(g, dens, coords, charges), dtype=float)
-        ctx.nontrivial(("dipole", len(charges)), section="dipole")
+        ctx.nontrivial(("dipole", gname, len(charges)), section="dipole")
         if got.shape != (3,) or np.any(_gt(np.abs(got - ref), 1e-11 * (1 + np.abs(ref)))):
             ctx.violation("dipole:differs-from-nuclear-minus-electronic-first-moments",
-                          f"dipole_moment_of_molecule = {got}, reference {ref}", {"route": "dipole", "natoms": len(charges)})
+                          f"dipole_moment_of_molecule on the {gname} grid = {got}, reference {ref}", {"route": "dipole", "natoms": len(charges), "grid": gname})
 
 
 def run(ctx):
@@ -218,12 +257,16 @@ def run(ctx):
         for kind in ("cartesian", "radial", "pure", "pure-radial"):
             if kind in ("pure", "pure-radial") and gname in ("1d", "2d"):
                 continue  # solid harmonics are defined in three dimensions
-            top = 4 if (gname in ("3d", "atom") and kind != "radial") else 6
+            top = 5 if (gname in ("3d", "atom") and kind != "radial") else 6
             if ctx.thorough and kind in ("pure", "cartesian"):
                 top += 2
             for maxorder in range(0 if kind != "pure-radial" else 1, top + 1):
                 for ncent in (1, 2, 3):
                     jobs.append((gname, kind, maxorder, ncent, ctx.seed))
+    for gname in ("atom-rot", "mol", "uniform", "tensor", "angular", "local", "periodic"):
+        for kind in ("cartesian", "radial", "pure", "pure-radial"):
+            for maxorder in ((1, 3) if kind != "pure-radial" else (2,)) + ((5,) if ctx.thorough or gname == "atom-rot" else ()):
+                jobs.append((gname, kind, maxorder, 3, ctx.seed))
     for res in lattice.pmap(_case, jobs, ctx.workers, chunksize=2):
         if len(ctx.samples) > 8:
             res["samples"] = []
